@@ -10,25 +10,43 @@ MANIFEST = dict(
     text=("Lean theorems, for all trees (own inductive tree type, every string class incl. arbitrary subclasses), all receivers, "
           "all separator/strip/types arguments and every interesting_string_types value: the code-mirror of Tag._all_strings (worklist "
           "walk over descendants + exact-class filter + strip) equals the recursive evaluator (allStrings_eq_spec, walk_is_preorder, "
-          "allStrings_str_eq_spec for string receivers); default selection = NavigableString+CData for ordinary elements, own class "
-          "for string containers, over the generated MAIN_CONTENT_STRING_TYPES / DEFAULT_STRING_CONTAINERS tables (default_types_*, "
-          "main_types_table, containers_table); special strings never seen from ordinary elements whatever the nesting "
-          "(outside_never_sees_special, outside_mem, only_special_yields_nothing, parsed_container_text_invisible with the mirror of "
-          "string_container); explicit types select by exact class (types_arg_exact/one/none/mem); get_text = intercalate "
-          "(getText_join, getText_length, text_concat); strip trims by the generated isspace table and drops empties "
-          "(strip_spec, strip_drops_empties(_str), strip_fixed_point); .string = the string at the end of a chain of only children "
-          "(string_sole_chain, sole_chain_unique, string_none_iff). Tie: differential runs of the real code on parsed (html.parser) and "
-          "API-built/edited trees with every string class under every kind of parent, every element and string as receiver, the argument "
-          "grid, custom string_containers and hand-set interesting_string_types; against the Lean mirror, the Lean evaluator and an "
-          "independent Python evaluator over .contents (object identity of the yielded strings included)."),
+          "allStrings_filter_of_document_order, allStrings_str_eq_spec for string receivers); default selection = NavigableString+CData "
+          "for ordinary elements, own class for string containers, over the generated MAIN_CONTENT_STRING_TYPES / DEFAULT_STRING_CONTAINERS "
+          "tables (default_types_*, main_types_table, containers_table, whitespace_table); special strings never seen from ordinary "
+          "elements whatever the nesting (outside_never_sees_special, outside_mem, only_special_yields_nothing); explicit types select "
+          "by exact class (types_arg_exact/one/none/mem/str); get_text = intercalate (getText_join, getText_length, text_concat); strip "
+          "trims by the generated isspace table and drops empties, existence and uniqueness of the trim (strip_spec, strip_unique_trim, "
+          "strip_drops_empties(_str), strip_fixed_point), only the truth value of strip matters (strip_truthiness); .string = the string "
+          "at the end of a chain of only children (string_sole_chain, sole_chain_unique, string_none_iff). ON THE POINTER HEAP "
+          "(Model/TextHeap.lean: _all_strings/get_text over the next_element chase of Tag.descendants, .string as the loop over contents): "
+          "on every consistent heap they never fail and equal the tree-level mirror on the tree read off the children lists "
+          "(heap_allStrings_eq_tree/eq_spec/document_order, heap_getText, heap_string_sole_chain, heap_string_eq_tree, toNode_is_the_tree), "
+          "and by C01's theorems every parsed document edited by any finite history of the fourteen editing calls is such a heap "
+          "(parsed_then_edited_text, built_then_edited_text) - the pre-order of the chain is derived, not assumed. CONFIGURATION: "
+          "TreeBuilder's string_containers option (omitted / dict incl. empty / None), Tag.__init__ with and without a builder, new_tag, "
+          "Tag.copy_self, BeautifulSoup.copy_self, copies of trees, nested containers (config_option, tag_init_cases, "
+          "empty_config_all_ordinary, builderless_tag_counts_main, copy_same_text, soup_copy_root_from_builder, "
+          "nested_containers_innermost, no_container_open, string_container_rule), and the parser: C03's builder machine instantiated "
+          "with a string_containers table gives pending text the class of the innermost open container in every state "
+          "(parsed_text_class), hence the contents of the default containers are invisible from ordinary elements and visible from "
+          "the container (container_contents_invisible, parsed_container_text_invisible). Tie: differential runs of the real code on "
+          "parsed (html.parser, malformed markup included) and API-built/edited trees with every string class under every kind of "
+          "parent, every element and string as receiver, the argument grid (strip as bool/int/None/str, types as class/None/tuple/list/"
+          "set/frozenset/dict/one-shot iterator), custom string_containers and hand-set interesting_string_types, copies, "
+          "ask-edit-ask sequences, real edit histories against the pointer-heap model; against the Lean mirrors, the Lean evaluator "
+          "and an independent Python evaluator over .contents (object identity of the yielded strings included)."),
     design="7/C13",
-    note=("The tree model is a plain inductive type: that the next_element chain below an element is its pre-order is C01/C02's "
-          "invariant; edits here are single-argument API calls only (C02's multi-argument defect is out of scope). types=() is the "
-          "default sentinel itself (CPython's empty tuple is a singleton) and is treated as 'default'. NavigableString._all_strings "
-          "yields nothing for an empty string even without strip (modelled; Tag._all_strings yields empty strings). "
-          "element_classes={NavigableString: Sub} hides all parsed text from ordinary elements (recorded quirk, outside the quantifier; "
-          "only string_container() itself is compared with the model under element_classes)."),
-    technique="Lean 4 refinement proof (code-mirror = recursive evaluator, laws of the evaluator, generated tables) + differential correspondence + direct Python oracle",
+    note=("Edits in the tree streams are single-argument API calls; the heap stream uses heapsim's histories (all fourteen calls, "
+          "multi-argument included). types=() is the default sentinel itself (CPython's empty tuple is a singleton) and is read as "
+          "'default'. Recorded behaviours, modelled but outside the property's quantifier: NavigableString._all_strings yields "
+          "nothing for an empty string even without strip; a string receiver's default selection is NavigableString+CData whatever "
+          "its parent; a one-shot iterator passed as types is consumed by the `in` test (iter_types_sublist; the check accepts the "
+          "tuple reading as well); string_containers=None makes Tag construction raise TypeError; copying a BeautifulSoup object "
+          "re-derives the root's interesting_string_types from the builder; element_classes={NavigableString: Sub} hides all parsed "
+          "text from ordinary elements (only string_container() itself is compared with the model under element_classes). The heap "
+          "model carries string classes and interesting_string_types as a labelling beside Model/Heap.lean's heap (no editing call "
+          "writes them); library-allocated strings are NavigableString (Comment for a preformatted `.string=`)."),
+    technique="Lean 4 refinement proofs (code-mirror = recursive evaluator on trees; pointer-heap mirror = tree mirror via C01's invariant; C03's parser machine instantiated) + generated tables + differential correspondence + direct Python oracle",
 )
 
 # numbering of the classes the model knows by name = position in Gen.c13KnownStringClasses (translate/parts_c13.py KNOWN)
@@ -1709,13 +1727,15 @@ def run(ctx: Ctx):
     warnings.simplefilter("ignore")
     ctx.rule = ("every element and every string of every tree is a receiver; per receiver: .strings, .stripped_strings, .text, .string, "
                 "4 random get_text(sep, strip, types) and 2 _all_strings(strip, types); a receiver counts as non-trivial when some but "
-                "not all strings beneath it are selected by one of its queries, or .string is found through at least one element")
+                "not all strings beneath it are selected by one of its queries, or .string is found through at least one element; a heap "
+                "history counts when some attached element has children after it")
     ctx.assumptions = [
-        "the next_element chain below an element is its pre-order (C01/C02); edits are single-argument API calls",
         "types=() is the default sentinel itself (CPython empty-tuple singleton) and is read as 'default'",
-        "string receivers: an empty result yields nothing even without strip (modelled quirk of NavigableString._all_strings)",
+        "string receivers: an empty result yields nothing even without strip (modelled behaviour of NavigableString._all_strings)",
+        "a one-shot iterator as types: today's consuming behaviour is modelled; being honoured like a tuple is accepted too",
         "element_classes overrides are outside the quantifier; only string_container() itself is compared with the model under them",
         "str.strip() = trimming by str.isspace (checked for every code point when the table is generated)",
+        "heap stream: string class and interesting_string_types travel beside the heap as a labelling (no editing call writes them)",
     ]
     E()
     batch = Batch(ctx)
